@@ -252,6 +252,17 @@ def z_storage_mip(seed, T=5):
     return 'storage_mip', eao.portfolio.Portfolio(a), pr, tg
 
 
+def z_storage_mip_late(seed, T=6):
+    """a storage with boolean variables (no simultaneous in / out, holding duration) whose lifetime starts AFTER the grid start"""
+    n1 = A.Node(NN('n1'))
+    tg = grid(T)
+    pr = prices_for(T, seed)
+    H = dt.timedelta(hours=1)
+    a = [A.SimpleContract(NM('m'), n1, price='p1', min_cap=-3, max_cap=3),
+         A.Storage(NM('smip_late'), n1, size=3, cap_in=2, cap_out=2, eff_in=0.5, no_simult_in_out=True, max_store_duration=2, start=START + 2 * H, end=START + 5 * H)]
+    return 'storage_mip_late', eao.portfolio.Portfolio(a), pr, tg
+
+
 def z_windows(seed, T=6):
     n1, n2 = A.Node(NN('n1')), A.Node(NN('n2'))
     tg = grid(T)
@@ -267,5 +278,5 @@ def z_windows(seed, T=6):
 
 LP_ZOO = [z_contracts, z_transport_storage, z_multi, z_scaled, z_scaled_orderbook, z_structured, z_orderbook, z_coarse, z_coarse_window, z_periodic, z_periodic_duration,
           z_digit_names, z_windows]
-MIP_ZOO = [z_plant_fuel, z_chp, z_chp_minload, z_linked, z_storage_mip]
+MIP_ZOO = [z_plant_fuel, z_chp, z_chp_minload, z_linked, z_storage_mip, z_storage_mip_late]
 ZOO = LP_ZOO + MIP_ZOO
